@@ -3,14 +3,15 @@ from vlib.tok import f64, s as S, lst
 from checks.storegen import World, PLAIN, NAMES, BAD_NAMES, BLOCK_KINDS, REL_OF
 from checks import C04
 ID = 'C08'
-THEOREMS = ['Nix.St.createBlock_rejected', 'Nix.St.createSectionIn_rejected', 'Nix.St.createSourceIn_rejected', 'Nix.St.createInBlock_rejected', 'Nix.St.createDataArray_rejected', 'Nix.St.createDataFrame_rejected', 'Nix.St.createTag_rejected', 'Nix.St.createGroup_rejected', 'Nix.St.createSource_rejected', 'Nix.St.createProperty_rejected', 'Nix.St.setSectionLink_rejected', 'Nix.St.setArrayLink_rejected', 'Nix.St.setExtents_rejected', 'Nix.St.setNonEmpty_rejected', 'Nix.St.addReference_rejected', 'Nix.St.addSource_rejected', 'Nix.St.addMember_rejected', 'Nix.St.openGroupCreate_fresh', 'Nix.St.emptyContainer_unobservable', 'Nix.St.rejected_no_trace_partial']
+THEOREMS = ['Nix.St.createBlock_rejected', 'Nix.St.createSectionIn_rejected', 'Nix.St.createSourceIn_rejected', 'Nix.St.createInBlock_rejected', 'Nix.St.createDataArray_rejected', 'Nix.St.createDataFrame_rejected', 'Nix.St.createTag_rejected', 'Nix.St.createGroup_rejected', 'Nix.St.createSource_rejected', 'Nix.St.createProperty_rejected', 'Nix.St.setSectionLink_rejected', 'Nix.St.setArrayLink_rejected', 'Nix.St.setExtents_rejected', 'Nix.St.setNonEmpty_rejected', 'Nix.St.addReference_rejected', 'Nix.St.addSource_rejected', 'Nix.St.addMember_rejected', 'Nix.St.openGroupCreate_fresh', 'Nix.St.emptyContainer_unobservable', 'Nix.St.rejected_no_trace_partial', 'Nix.St.createInBlock_extends', 'Nix.St.blkFind_id_after_extend', 'Nix.St.blkFind_id_transport', 'Nix.St.createMultiTag_rejected', 'Nix.St.createFeature_rejected', 'Nix.St.rejected_no_trace']
+LEAN_MODULES = ['NixModel.Props.C08', 'NixModel.Props.C08Full']
 RULE = ('a reachable file state from the random tree generator, then a batch of calls that must be refused, each bracketed by two dumps: duplicate '
         'name (every container kind), empty / invalid name, empty type, references / positions / extents / features / sources / members / metadata / '
         'section links to entities that do not exist, live in another block or are uninitialised, mismatching positions / extents shapes, out-of-range '
         'indices, unsorted ticks, non-SI units, non-positive sampling intervals, unsupported element types, mixed-type property values. A call the '
         'library accepts is not a rejection and is not judged. non-trivial = a dump pair around a refused call; distinct = distinct op text.')
 TRUSTED = ['harness dump: everything the public getters expose']
-LEVEL_TEXT = ("Lean 4 theorems about the store model, for every store and every argument: an entry point that answers with an exception returns the store it was given — create (block, section, source, group, data array, data frame, tag, property), the single-valued links (metadata, section link, positions, extents, feature data: the target is resolved BEFORE the old link is dropped), the refusing setters; the three add entry points (tag reference, entity source, group member) may leave one new EMPTY container group behind, which no getter can tell from its absence (count, enumeration and every index agree, proved). rejected_no_trace_partial covers every entry point of the model except createMultiTag / createFeature (their second lookup by id after the entity group has been made is not yet proved to succeed; covered by the tie). On every rejected call of every generated history the library's dump before and after is compared (the property relation itself, on the implementation), and the model must predict the refusal and its exception class.")
+LEVEL_TEXT = ("Lean 4 theorems about the store model, for every store and every argument: an entry point that answers with an exception returns the store it was given — create (block, section, source, group, data array, data frame, tag, property), the single-valued links (metadata, section link, positions, extents, feature data: the target is resolved BEFORE the old link is dropped), the refusing setters; the three add entry points (tag reference, entity source, group member) may leave one new EMPTY container group behind, which no getter can tell from its absence (count, enumeration and every index agree, proved). rejected_no_trace covers EVERY entry point of the model; for createMultiTag / createFeature (which look the array up a second time after the entity group has been made) it is proved that creating the entity only extends the store and that a lookup by id that succeeded keeps succeeding in an extended store, under provisos true of every state the library produces (handles denote objects with a name and a well-formed id, the arrays container holds groups only, the new feature id is fresh). On every rejected call of every generated history the library's dump before and after is compared (the property relation itself, on the implementation), and the model must predict the refusal and its exception class.")
 LEVEL_NOTE = ("Trusted: Lean kernel; the abstract HDF5 store of lean/NixModel/Store.lean (objects, attributes, ordered hard links, removeAllLinks = every link to the object goes, creation-order index) and the hand-written entity layer lean/NixModel/Entities.lean, both validated on every run: the model replays every op of every generated history and must predict the library's answer (result / exception class, looked-up ids, counts, enumerations, cross-checks) and, at every dump, the whole observable tree (observe); ids and creation times are taken from the trace; fields the store model does not carry (array data, dimension descriptors, calibration, property values, row counts) are compared between dumps of the library only; harness dump = every public getter of every entity.")
 ASSUMPTIONS = []
 
